@@ -3,6 +3,23 @@ import PolyVerif.Spec.Nucleotide
 namespace PolyVerif.Driver.C11
 open PolyVerif PolyVerif.Transform
 
+/-- What this check can enumerate and ship through the line protocol: at most 2·10^6 readings and
+3·10^7 letters in total.  A parameter of the CHECK (not of the code, not of the property — the property
+states no bound): below it the full expansion is demanded, above it only "no wrong answer".
+The harness op `variants` (harness/cmd/run-seq/ops.go: `iupacCount`, `canEnumerate`) computes the same
+predicate from its own table of code sizes. -/
+def canEnumerate (cs : Str) : Bool :=
+  let count := Spec.readingCount cs
+  count ≤ 2000000 && count * (cs.length + 1) ≤ 30000000
+
+/-- safety parameter of the HARNESS: an input that cannot be enumerated and has at most this many
+readings is not submitted to the code (it would try to build up to terabytes); above it the code is
+called and must refuse at once.  It sits at the code's present guard so that nothing dangerous is
+called.  In the verdict it only separates "not called, so only the harness's `too-large` may come
+back" from "called, so only a refusal may come back"; whether the full expansion is demanded is
+decided by `canEnumerate` alone. -/
+def harnessCallsAbove : Nat := 2147483647
+
 /-- cases: `revcomp s` | `variants s` -/
 def render (f : List String) : List String := f
 
@@ -27,25 +44,44 @@ def judge (f out : List String) : Verdict :=
     let cs := s.toList
     let inDom := cs.all Spec.isIupac15
     let count := Spec.readingCount cs
-    let tooMany := count > maxInt32
-    -- the harness replies `ok <number of variants> <variants joined by ','>`
+    let enumerable := canEnumerate cs
+    -- the harness replies `ok <number of variants> <variants joined by ','>`, `err`, or — for an input
+    -- it does not submit to the code at all — `ok too-large`
     let parse := fun (o : List String) => match o with
       | ["ok", n, vs] => some (if n == "0" then ([] : List Str) else (vs.splitOn ",").map String.toList)
       | _ => none
     let outN := match out with | "err" :: _ => ["err"] | o => o
-    -- enumerating is only feasible for moderate expansions; beyond MaxInt32 the spec demands an error
-    if tooMany || count ≤ 2000000 then
+    if enumerable then
+      -- the property: the expansion, every reading once and nothing else.  A refusal (`err`), an
+      -- empty or partial list, a panic … is a FAIL whatever the number of readings (no threshold
+      -- is taken from the code here)
       let m := match allVariants cs with
         | some vs => ["ok", toString vs.length, ",".intercalate (vs.map String.ofList)]
         | none => ["err"]
-      let j := if tooMany then outN == ["err"] else
-        match parse out with
+      let j := match parse out with
         | some got => Spec.isExpansion cs got
         | none => false
       { corr := outN == m, judge := if inDom then some j else none,
-        cls := (if cs.all Spec.isAcgt then "triv:" else "") ++ (if tooMany then "variants/too-many" else "variants"),
-        detail := if outN == m && j then "" else (if tooMany then "err" else lineOf (m.take 2)) }
-    else { corr := true, judge := none, cls := "variants/skipped-too-large-to-enumerate" }
+        cls := (if cs.all Spec.isAcgt then "triv:" else "") ++ "variants",
+        detail := if outN == m && j then "" else lineOf (m.take 2) }
+    else
+      -- the expansion is too large for this check to receive (and, far beyond, for any machine to
+      -- build).  The only replies that do not contradict the property are a refusal and the harness's
+      -- own `too-large` (code not called: nothing observed, not judged).  Anything else — `ok 0`,
+      -- a partial list, panic, timeout, crash, garbage — is a FAIL.
+      -- corr: the harness does not call the code up to `harnessCallsAbove` readings; above, the model
+      -- (guard `countGuard`, proved ⇔ product ≤ MaxInt32) says whether the code refuses.
+      let m := if count ≤ harnessCallsAbove then ["ok", "too-large"] else
+        match variantLists cs with
+        | some ls => if countGuard ls 1 then ["ok", "model-would-enumerate"] else ["err"]
+        | none => ["err"]
+      let tooLarge := out == ["ok", "too-large"]
+      let called := count > harnessCallsAbove
+      -- not called: only `too-large` can come back (not judged); called: only a refusal passes
+      let j := if called then some (outN == ["err"]) else (if tooLarge then none else some false)
+      { corr := outN == m, judge := if inDom then j else none,
+        cls := if tooLarge then "too-large" else "variants/too-many",
+        detail := if outN == m then "" else lineOf m }
   | _ => { corr := false, judge := none, cls := "bad-case", detail := "bad case" }
 
 def driver : PropDriver := { render, judge }
